@@ -327,6 +327,7 @@ func (tcp *TCP) DecodeFromBytes(data []byte, df gopacket.DecodeFeedback) error {
 	tcp.ECE = data[13]&0x40 != 0
 	tcp.CWR = data[13]&0x80 != 0
 	tcp.NS = data[12]&0x01 != 0
+	tcp.Multipath = false // set again below if this segment carries an MPTCP option
 	tcp.Window = binary.BigEndian.Uint16(data[14:16])
 	tcp.Checksum = binary.BigEndian.Uint16(data[16:18])
 	tcp.Urgent = binary.BigEndian.Uint16(data[18:20])
